@@ -142,18 +142,22 @@ def includeNames (f : List (PLine α)) : List α := f.filterMap (·.incl)
 
 /-- `_find_included_files` before fixes/C07_1: the lines of the include file are inserted behind the `+name` line
     (an unreadable file inserts nothing) and are ordinary lines from then on -/
-def spliceOld (fs : FS α) (f : List (PLine α)) : List (PLine α) :=
-  f.flatMap fun l => match l.incl with
-    | some n => l :: (fs n).getD []
-    | none => [l]
+def spliceLineOld (fs : FS α) (l : PLine α) : List (PLine α) :=
+  match l.incl with
+  | some n => l :: (fs n).getD []
+  | none => [l]
+
+def spliceOld (fs : FS α) (f : List (PLine α)) : List (PLine α) := f.flatMap (spliceLineOld fs)
 
 def markSpliced (l : PLine α) : PLine α := { l with spliced := true }
 
 /-- repaired: the inserted lines are recorded in `delete_on_write` -/
-def spliceNew (fs : FS α) (f : List (PLine α)) : List (PLine α) :=
-  f.flatMap fun l => match l.incl with
-    | some n => l :: ((fs n).getD []).map markSpliced
-    | none => [l]
+def spliceLineNew (fs : FS α) (l : PLine α) : List (PLine α) :=
+  match l.incl with
+  | some n => l :: ((fs n).getD []).map markSpliced
+  | none => [l]
+
+def spliceNew (fs : FS α) (f : List (PLine α)) : List (PLine α) := f.flatMap (spliceLineNew fs)
 
 /-- `read_file` + `write_shelx_file`; `none` is the `ValueError` raised when a file name is included twice -/
 def cycleNew [DecidableEq α] (P : Printer α) (fs : FS α) (f : List (PLine α)) : Option (List (PLine α)) :=
